@@ -35,7 +35,7 @@ REQUIRED = [  # entered in this process by the purity workload; the history work
     ("liquid/parser.py", "get_parser"),
     ("liquid/context.py", "RenderContext.assign"),
 ]
-MIN_COUNTERS = {"purity_renders": 300, "history_pairs": 30, "date_memo_hits_in_history_children": 5, "lexer_memo_hits_in_history_children": 10}
+MIN_COUNTERS = {"purity_renders": 300, "history_pairs": 30, "batched_probe_pairs": 1000, "date_memo_hits_in_history_children": 5, "lexer_memo_hits_in_history_children": 10}
 ASSUMPTIONS = ["time-dependent constructs (now, today, date of 'now'/'today') are excluded from probes and histories", "no template sources are reloaded"]
 
 # ------------------------------------------------------------------ snapshots
@@ -117,7 +117,10 @@ def _render_spec(spec: dict[str, Any]) -> Any:
 def _child_job(job: dict[str, Any]) -> dict[str, Any]:
     for spec in job["history"]:
         _render_spec(spec)
-    res = _render_spec(job["probe"])
+    if "probes" in job:
+        res = [_render_spec(p) for p in job["probes"]]
+    else:
+        res = _render_spec(job["probe"])
     info = {}
     try:
         from liquid.builtin.filters import misc
@@ -195,10 +198,11 @@ def finish(ctx: core.Ctx) -> None:
         Z.clear()
 
 
-def in_child(history: list, probe: dict) -> dict[str, Any]:
+def in_child(history: list, probe: dict | None, probes: list | None = None) -> dict[str, Any]:
     if not Z:
         raise core.Inconclusive("zygote not running")
-    Z["w"].write(json.dumps({"history": history, "probe": probe}, default=repr) + "\n")
+    job = {"history": history, "probes": probes} if probes is not None else {"history": history, "probe": probe}
+    Z["w"].write(json.dumps(job, default=repr) + "\n")
     Z["w"].flush()
     line = Z["r"].readline()
     if not line:
@@ -260,6 +264,43 @@ def judge(ctx: core.Ctx, case: dict[str, Any]) -> None:
             if len(ctx.samples) < 3 and len(ctx.nontrivial_hashes) in (1, 50, 500):
                 ctx.samples.append(case)
         return
+    if case["kind"] == "batch":
+        # many (history render, probe render) pairs share two children: one runs the probes only, the other the history renders first.
+        # Both are histories of the same process state; a probe whose result differs between them depends on history.  The witness is
+        # then re-established for that probe alone, in fresh children.
+        ref = in_child([], None, case["probes"])
+        aft = in_child(case["history"], None, case["probes"])
+        ctx.count("history_pairs")
+        ctx.count("batched_probe_pairs", len(case["probes"]))
+        ctx.evaluations += 1
+        if not isinstance(ref["result"], list) or not isinstance(aft["result"], list):
+            raise core.Inconclusive(f"batch child failed: {ref['result']!r:.100} / {aft['result']!r:.100}")
+        for i, (a, b) in enumerate(zip(ref["result"], aft["result"])):
+            if a == b:
+                continue
+            probe = case["probes"][i]
+            alone = in_child([], probe)["result"]
+            culprit = None
+            for spec in [case["history"][i]] + case["history"]:
+                if in_child([spec], probe)["result"] != alone:
+                    culprit = spec
+                    break
+            if culprit is None:
+                for spec in case["probes"][:i]:
+                    if in_child([spec], probe)["result"] != alone:
+                        culprit = spec
+                        break
+            ctx.violation(
+                f"history-dependent:{case.get('aim', 'batch')}:{construct_of(probe['source'])}",
+                f"probe {probe['source']!r:.200} with data {probe['data']!r:.200} env {probe.get('env')} gives {alone} alone but differs after "
+                + (f"the single earlier render {culprit['source']!r:.200} with data {culprit['data']!r:.200}" if culprit else "the batch history")
+                + f" (in the batch: {a} vs {b})",
+            )
+            return
+        h = core.stable_hash(case)
+        if h not in ctx.nontrivial_hashes:
+            ctx.nontrivial_hashes.add(h)
+        return
     # history case
     alone = in_child([], case["probe"])
     after = in_child(case["history"], case["probe"])
@@ -309,7 +350,7 @@ def spec(source: str, data: dict[str, Any], env: dict[str, Any] | None = None, i
 
 
 def gen_history_case(rng) -> dict[str, Any]:
-    aim = rng.choice(["date-equal-values", "date-equal-values", "date-markup-format", "lexer-parser-configs", "generated", "counters-and-cycles"])
+    aim = rng.choice(["date-equal-values", "date-equal-values", "date-markup-format", "lexer-parser-configs", "generated", "counters-and-cycles", "equal-distinct-through-filters", "equal-distinct-through-filters"])
     hist: list[dict[str, Any]] = []
     if aim == "date-equal-values":
         fmt = rng.choice(FMTS)
@@ -330,6 +371,30 @@ def gen_history_case(rng) -> dict[str, Any]:
                     spec("{{ d | date: '" + fmt.replace("'", "") + "' }}", {"d": d}, {"autoescape": True}), spec("{{ d | date: f }}", {"d": d, "f": fmt}, {"autoescape": False})]
         rng.shuffle(variants)
         hist, probe = variants[:-1], variants[-1]
+    elif aim == "equal-distinct-through-filters":
+        # any memo keyed by ==/hash conflates these: the same template is first rendered with one member of a family of values that
+        # compare equal but differ in type (or safe-marking), then probed with another member
+        from markupsafe import Markup
+
+        fam = rng.choice([
+            ["<b>x</b>", Markup("<b>x</b>")], ["a & b", Markup("a & b")], ["plain", Markup("plain")], [1, 1.0, True], [0, 0.0, False], [2, 2.0],
+            [[1, 2], (1, 2)], [[True, 0], [1, False], [1.0, 0.0]], ["1", Markup("1")], [{"k": 1}, {"k": 1.0}, {"k": True}],
+        ])
+        f0 = ["strip_html", "escape", "escape_once", "upcase", "downcase", "capitalize", "strip", "strip_newlines", "newline_to_br", "url_encode", "url_decode", "base64_encode", "squish",
+              "size", "abs", "ceil", "floor", "round", "first", "last", "join", "reverse", "sort", "uniq", "compact", "json", "sum", "default: 'd'", "times: 2", "plus: 1", "minus: 1",
+              "divided_by: 2", "modulo: 2", "at_least: 1", "at_most: 1", "append: 'z'", "prepend: 'z'", "remove: 'x'", "replace: 'x', 'y'", "truncate: 3", "truncatewords: 1", "slice: 0",
+              "split: ' '", "date: '%Y'", "map: 'k'", "where: 'k'", "t", "gettext", "safe"]
+        f1 = ["append: w", "prepend: w", "default: w", "plus: w", "times: w", "concat: w", "replace: 'x', w", "at_least: w", "date: w"]
+        if rng.random() < 0.75:
+            src = "{{ v | " + rng.choice(f0) + (" | " + rng.choice(f0) if rng.random() < 0.3 else "") + " }}"
+        else:
+            src = "{{ 'x1' | " + rng.choice(f1) + " }}[{{ 1 | " + rng.choice(f1) + " }}]"
+        e = {"autoescape": rng.random() < 0.6, "extra": True}
+        pv = rng.choice(fam)
+        for _ in range(rng.randint(1, 3)):
+            m = rng.choice(fam)
+            hist.append(spec(src, {"v": m, "w": m}, e))
+        probe = spec(src, {"v": pv, "w": pv}, e)
     elif aim == "lexer-parser-configs":
         srcs = ["{% if a %}A{% else %}B{% endif %}{{ x | upcase }}", "{{ a ? 'y' : 'n' }}", "{% if not a %}N{% endif %}", "{% if (a or b) and c %}P{% endif %}", "{# c #}x{{ a }}", "{{ 'abc'.first }}{{ s[0] }}",
                 "{% unknown %}", "{{ x | nosuch }}", "{% if a %}", "{{ a[ }}"]
@@ -360,12 +425,42 @@ def gen_history_case(rng) -> dict[str, Any]:
     return {"kind": "history", "aim": aim, "history": hist, "probe": probe}
 
 
+F0 = ["strip_html", "escape", "escape_once", "upcase", "downcase", "capitalize", "strip", "lstrip", "rstrip", "strip_newlines", "newline_to_br", "url_encode", "url_decode", "base64_encode",
+      "base64_decode", "squish", "size", "abs", "ceil", "floor", "round", "first", "last", "join", "reverse", "sort", "sort_natural", "uniq", "compact", "json", "sum", "default: 'd'", "times: 2",
+      "plus: 1", "minus: 1", "divided_by: 2", "modulo: 2", "at_least: 1", "at_most: 1", "append: 'z'", "prepend: 'z'", "remove: 'x'", "replace: 'x', 'y'", "truncate: 3", "truncatewords: 1",
+      "slice: 0", "split: ' '", "date: '%Y'", "map: 'k'", "where: 'k'", "t", "gettext", "safe", "escapejs" if False else "strip", "append: v", "prepend: v", "default: v", "plus: v", "concat: v", "at_least: v"]
+
+
+def batch_cases():
+    """Every filter x every family of equal-but-distinct values, in both orders, with autoescape on and off (enumerated)."""
+    from markupsafe import Markup
+
+    fams = [
+        ["<b>x</b>", Markup("<b>x</b>")], ["a & b", Markup("a & b")], ["plain", Markup("plain")], [1, 1.0], [1, True], [0, False], [0.0, 0], [[1, 2], (1, 2)],
+        [[True, 0], [1, False]], ["1", Markup("1")], [{"k": 1}, {"k": True}], [[{"k": 1}], [{"k": 1.0}]],
+    ]
+    for fam in fams:
+        for first, second in ((fam[0], fam[1]), (fam[1], fam[0])):
+            for auto in (True, False):
+                e = {"autoescape": auto, "extra": True}
+                hist = [spec("{{ v | " + f + " }}", {"v": first}, e) for f in F0]
+                probes = [spec("{{ v | " + f + " }}", {"v": second}, e) for f in F0]
+                yield {"kind": "batch", "aim": "equal-distinct-through-filters", "history": hist, "probes": probes}
+
+
 def gen_purity_case(rng) -> dict[str, Any]:
     if rng.random() < 0.3:
         f = rng.choice(["sort", "sort_natural", "reverse", "uniq", "compact", "map: 'k'", "concat: b", "sort: 'k'", "where: 'k'", "join: ','", "first", "last", "sum", "slice: 1, 2", "push: 9", "pop", "shift",
                         "unshift: 9", "sort_numeric", "reject: 'k'", "flatten" if False else "size", "default: b"])
-        src = "{% assign r = a | " + f + " %}{{ r | size }}{% for i in a %}{{ i }}{% endfor %}{{ a | " + f + " | json }}"
-        data = {"a": rng.choice([[3, 1, 2], ["b", "A", "c"], [{"k": 2}, {"k": 1}, {"j": 0}], [[2, 1], [0]], [None, 1, None]]), "b": rng.choice([[9, 8], "z"])}
+        f2 = rng.choice(["", "", " | reverse", " | sort", " | sort: 'k'", " | sort_natural: 't'", " | uniq: 'k'", " | map: 'k' | sort", " | concat: b | sort_natural", " | compact | sort: 't'"])
+        target = rng.choice(["a", "a", "h.items", "h.items", "a | " + f])
+        src = "{% assign r = " + target + (" | " + f if "|" not in target else "") + f2 + " %}{{ r | size }}{% for i in a %}{{ i }}{% endfor %}{{ a | " + f + " | json }}"
+        homo = [
+            [{"k": 3, "t": "c"}, {"k": 1, "t": "a"}, {"k": 2, "t": "B"}], [{"k": "z", "t": "y"}, {"k": "b", "t": "X"}, {"k": "m", "t": "n"}],
+            [{"k": 2.5, "t": "q"}, {"k": -1, "t": "p"}], [3, 1, 2], ["b", "A", "c"], [{"k": 2}, {"k": 1}, {"j": 0}], [[2, 1], [0]], [None, 1, None], [2, 1, 2, 3, 1],
+        ]
+        a = rng.choice(homo)
+        data = {"a": a, "b": rng.choice([[9, 8], "z"]), "h": {"items": rng.choice(homo)}}
         return {"kind": "purity", "source": src, "data": V.enc(data), "env": {"extra": True}, "async": rng.random() < 0.2}
     extra = rng.random() < 0.3
     g = tpl.Gen(rng, tpl.GenCfg(max_nodes=10, wild=0.05, extra=extra) if "extra" in tpl.GenCfg.__dataclass_fields__ else tpl.GenCfg(max_nodes=10, wild=0.05))
@@ -375,6 +470,8 @@ def gen_purity_case(rng) -> dict[str, Any]:
 
 def cases(ctx: core.Ctx):
     rng = ctx.rng("cases")
+    if ctx.shard == 0:
+        yield from batch_cases()
     if ctx.tier == "quick":
         # the forked-twin histories first: they are the slow part, and the time cap must not starve them
         for _ in range(ctx.budget(220, 220)):
